@@ -344,6 +344,34 @@ def _walk(it: Item):
         yield from _walk(c)
 
 
+def rule_w5(chk: Check):
+    """W5: the token buffer is indexed, never copied: the helpers that run once per token or per rule evaluation (peek, getnext,
+    mark, reset, span's backward scan, diagnose) must not slice, list(), sorted() or otherwise materialise `self._tokens` — one
+    such copy per call makes the total work quadratic in the number of tokens."""
+    tk = parse_py(repo.TOKENIZER)
+    cls = repo.find_class(tk, "Tokenizer")
+    hot = ("peek", "getnext", "mark", "reset", "get_last_non_whitespace_token", "diagnose", "is_blank")
+    for fn in [n for n in cls.body if isinstance(n, ast.FunctionDef) and n.name in hot]:
+        chk.count("W5-buffer-copy")
+        bad = ""
+        for n in ast.walk(fn):
+            if isinstance(n, ast.Subscript) and norm_stmt(n.value) == "self._tokens" and isinstance(n.slice, ast.Slice):
+                bad = norm_stmt(n)
+            if isinstance(n, ast.Call) and norm_stmt(n.func) in ("list", "sorted", "tuple", "reversed", "enumerate", "len") and n.args:
+                a0 = n.args[0]
+                if norm_stmt(n.func) in ("list", "sorted", "tuple") and "self._tokens" in norm_stmt(a0):
+                    bad = norm_stmt(n)
+            if isinstance(n, (ast.ListComp, ast.GeneratorExp, ast.For)) and "self._tokens" in norm_stmt(n.generators[0].iter if not isinstance(n, ast.For) else n.iter) \
+                    and not norm_stmt(n.generators[0].iter if not isinstance(n, ast.For) else n.iter).startswith("reversed(self._tokens)"):
+                it = n.generators[0].iter if not isinstance(n, ast.For) else n.iter
+                if isinstance(it, ast.Subscript) or norm_stmt(it) == "self._tokens":
+                    bad = norm_stmt(it)
+        chk.require(not bad, "W5-buffer-copy", f"Tokenizer.{fn.name}", f"{repo.TOKENIZER}:{fn.lineno}",
+                    f"`{bad}` copies or walks the whole token buffer on every call of `{fn.name}` (called once per token or per rule): total "
+                    f"work grows with the square of the input length")
+    chk.floor("W5-buffer-copy", 5)
+
+
 def run(chk: Check):
     chk.explanation = (
         "A graph criterion on the IR of the parser that runs: (W1) no rule evaluates an unmemoised rule twice at the same "
@@ -366,6 +394,7 @@ def run(chk: Check):
     rule_w2(chk)
     rule_w3(chk, ir)
     rule_w4(chk, ir)
+    rule_w5(chk)
     # the scanner is part of the work: no exponentially ambiguous regular expression (C03 T4)
     from .c03 import rule_t4
     from ..pyflow import Index
